@@ -103,6 +103,17 @@ def obligations(tier):
         assumes=[TQ + "template 3: sender netstring with symbolic length digit, separator, TS bytes and terminator"],
         claim="template 3 (sender): NUL in the sender => D, nothing queued; framing of the sender netstring",
         expect_witnesses=["exit", "malformed_after_open", "accepted_K_with_recipient", "nul_in_address"], **QMQP))
+    def long_nq(al):
+        outer = 7 + len(str(al)) + 1 + al + 1
+        return len(str(outer)) + 1 + outer + 1
+    obls.append(Obl("qmqpd_long_addr", "qmqpd.c", defines={"TEMPLATE": 5},
+        flags=["--max-field-sensitivity-array-size", "2048"],
+        grid=[{"AL": a} for a in [999, 1000]],
+        unwind_default=lambda p: long_nq(p["AL"]) + 3, unwind=lambda p: qmqp_unw(long_nq(p["AL"])),
+        assumes=[TQ + "template 5: one recipient of AL bytes, first and last byte symbolic, everything else concrete"],
+        claim="template 5 (address length limit): an address of 1000 bytes is answered D and nothing is queued, 999 bytes are accepted; "
+              "no buffer is overrun (standard checks on)",
+        expect_witnesses=lambda p: ["exit"] + (["accepted_K_with_recipient", "nul_in_address"] if p["AL"] < 1000 else ["address_too_long"]), **QMQP))
     def qmtp_wit(p):
         n = p["N"]
         w = ["exit"]
@@ -199,7 +210,7 @@ def obligations(tier):
     obls.append(Obl("qmtpd_long_sender", "qmtpd.c",
         defines={"ARENA_CAP": 16, "ARENA_SLOTS": 1, "TEMPLATE": 6, "DB": 0},
         flags=["--max-field-sensitivity-array-size", "2048"],
-        grid=[{"AL": a} for a in [999, 1000]],
+        grid=[{"AL": a} for a in ([1000] if q else [999, 1000])],
         unwind_default=lambda p: p["AL"] + 30, unwind=lambda p: qmtp_unw(p["AL"] + 4 + len(str(p["AL"])) + 8),
         assumes=[TM + "template 6: sender of AL bytes, first and last byte symbolic, everything else concrete"],
         claim="template 6 (sender length limit): a sender of 1000 bytes is refused with D for every recipient, 999 bytes are accepted",
